@@ -50,7 +50,37 @@ type B struct {
 	Nanos     bool // RFC 3339 timestamps with nanoseconds (note dates never carry any)
 	ZoneForm  int  // 0: "Z"; 1: "+00:00"; 2: "+05:30" offset (same instant arithmetic done here)
 
+	// ForceID, when non-nil, replaces the generated value in the id positions
+	// selected by ForceWhere (a bit set of the IDAt* constants): the id-range
+	// families put boundary ids (negative placeholder ids, ids of 2^31 and
+	// beyond, ids whose bits reach the type bits of packed object ids) into
+	// every id-carrying place.
+	ForceID    *int64
+	ForceWhere uint
+
 	pos int
+}
+
+// Places that carry an id.
+const (
+	IDAtElem      = 1 << iota // id of node / way / relation
+	IDAtNdRef                 // ref of <nd>
+	IDAtMemberRef             // ref of <member>
+	IDAtChangeset             // id of <changeset> and the changeset attribute of elements, nds, members and updates
+	IDAtAll       = IDAtElem | IDAtNdRef | IDAtMemberRef | IDAtChangeset
+)
+
+// IDRange is the boundary id set of the id-range families: the usual editor
+// placeholder id, the int32 limits, and ids at and beyond 2^40 whose bits
+// collide with the type bits of a packed object id (id<<16 | type | version).
+var IDRange = []int64{-1, -2147483648, 1 << 31, 1 << 40, 1<<40 + 1, 1<<44 + 5, 1 << 62}
+
+// ID is I for an id position of the given place.
+func (b *B) ID(base int64, where uint) (string, int64) {
+	if b.ForceID != nil && b.ForceWhere&where != 0 {
+		return strconv.FormatInt(*b.ForceID, 10), *b.ForceID
+	}
+	return b.I(base)
 }
 
 // NewB returns a context with no special text position.
@@ -218,7 +248,7 @@ func (b *B) metaAttrs(mask uint, from int) ([]Attr, meta) {
 	}
 	if bit(mask, from+4) {
 		var s string
-		s, m.changeset = b.I(98765432100)
+		s, m.changeset = b.ID(98765432100, IDAtChangeset)
 		at = append(at, Attr{"changeset", s})
 	}
 	if bit(mask, from+5) {
@@ -251,7 +281,7 @@ func (b *B) Node(c NodeCfg) (*Elem, *osm.Node) {
 	v := &osm.Node{}
 	var at []Attr
 	if bit(c.Attrs, 0) {
-		s, i := b.I(5000000000)
+		s, i := b.ID(5000000000, IDAtElem)
 		at = append(at, Attr{"id", s})
 		v.ID = osm.NodeID(i)
 	}
@@ -284,7 +314,7 @@ func (b *B) nd(mask uint) (*Elem, osm.WayNode) {
 	var v osm.WayNode
 	var at []Attr
 	if bit(mask, 0) {
-		s, i := b.I(700)
+		s, i := b.ID(700, IDAtNdRef)
 		at = append(at, Attr{"ref", s})
 		v.ID = osm.NodeID(i)
 	}
@@ -294,7 +324,7 @@ func (b *B) nd(mask uint) (*Elem, osm.WayNode) {
 		v.Version = int(i)
 	}
 	if bit(mask, 2) {
-		s, i := b.I(31000)
+		s, i := b.ID(31000, IDAtChangeset)
 		at = append(at, Attr{"changeset", s})
 		v.ChangesetID = osm.ChangesetID(i)
 	}
@@ -346,7 +376,7 @@ func (b *B) update(mask uint) (*Elem, osm.Update) {
 		v.Timestamp = t
 	}
 	if bit(mask, 3) {
-		s, i := b.I(52000)
+		s, i := b.ID(52000, IDAtChangeset)
 		at = append(at, Attr{"changeset", s})
 		v.ChangesetID = osm.ChangesetID(i)
 	}
@@ -435,7 +465,7 @@ func (b *B) Way(c WayCfg) (*Elem, *osm.Way) {
 	v := &osm.Way{}
 	var at []Attr
 	if bit(c.Attrs, 0) {
-		s, i := b.I(6000000000)
+		s, i := b.ID(6000000000, IDAtElem)
 		at = append(at, Attr{"id", s})
 		v.ID = osm.WayID(i)
 	}
@@ -483,7 +513,7 @@ func (b *B) member(c MemberCfg) (*Elem, osm.Member) {
 		v.Type = memberTypes[c.Type%3]
 	}
 	if bit(c.Attrs, 1) {
-		s, i := b.I(880000)
+		s, i := b.ID(880000, IDAtMemberRef)
 		at = append(at, Attr{"ref", s})
 		v.Ref = i
 	}
@@ -497,7 +527,7 @@ func (b *B) member(c MemberCfg) (*Elem, osm.Member) {
 		v.Version = int(i)
 	}
 	if bit(c.Attrs, 4) {
-		s, i := b.I(64000)
+		s, i := b.ID(64000, IDAtChangeset)
 		at = append(at, Attr{"changeset", s})
 		v.ChangesetID = osm.ChangesetID(i)
 	}
@@ -541,7 +571,7 @@ func (b *B) Relation(c RelationCfg) (*Elem, *osm.Relation) {
 	v := &osm.Relation{}
 	var at []Attr
 	if bit(c.Attrs, 0) {
-		s, i := b.I(7000000000)
+		s, i := b.ID(7000000000, IDAtElem)
 		at = append(at, Attr{"id", s})
 		v.ID = osm.RelationID(i)
 	}
@@ -592,7 +622,7 @@ func (b *B) Changeset(c ChangesetCfg) (*Elem, *osm.Changeset) {
 	v := &osm.Changeset{}
 	var at []Attr
 	if bit(c.Attrs, 0) {
-		s, i := b.I(81000000)
+		s, i := b.ID(81000000, IDAtChangeset)
 		at = append(at, Attr{"id", s})
 		v.ID = osm.ChangesetID(i)
 	}
